@@ -33,6 +33,16 @@ def outcome(spec):
 def klass(members):
     """members: specs that must all denote one group."""
     gs = [mk(m, k) for k, m in enumerate(members)]
+    # the same groups after a pickle round trip / a copy: identity is the centre and the multiset, not the object or the
+    # string object holding its name (batch 12: interned names compared with `is`)
+    import copy
+    import pickle
+    for g in list(gs[:2]) + [gs[-1]]:
+        for f_ in (lambda x: pickle.loads(pickle.dumps(x)), copy.deepcopy, copy.copy):
+            try:
+                gs.append(f_(g))
+            except TypeError:
+                pass            # (a group keeps the iterable it was given; a generator cannot be pickled or deep-copied)
     g0 = gs[0]
     d = {g0: 'v'}
     lib = GroupLibrary(None, {g0: {'thermochem': 'v'}})
